@@ -59,7 +59,7 @@ def candidates(g, rng, n_sub=3):
         # on-curve points whose y lies in Fq (c1 = 0) or is purely imaginary (c0 = 0): the sort-flag comparison must
         # then fall through to the other coefficient. x = a + b u with 3 a^2 b - b^3 = -4.
         found = 0
-        while found < 2:
+        while found < 8:
             b_ = rng.randrange(1, Q)
             a2 = (b_ ** 3 - 4) * pow(3 * b_, -1, Q) % Q
             a_ = F.fq_sqrt(a2)
